@@ -456,6 +456,9 @@ impl<'a> FieldInfo<'a> {
         }
     }
 }
+fn same_type(a: &Type, b: &Type) -> bool {
+    a.to_token_stream().to_string() == b.to_token_stream().to_string()
+}
 pub(crate) fn compile_time_size(typ: &Type) -> Option<(usize /*size*/, usize /*alignment*/)> {
     match typ {
         Type::Path(p) => {
@@ -486,8 +489,18 @@ pub(crate) fn compile_time_size(typ: &Type) -> Option<(usize /*size*/, usize /*a
                 //Empty tuple
                 return Some((0, 1));
             }
+            let mut first_item: Option<&Type> = None;
             for item in t.elems.iter() {
                 let (cursize, curalign) = compile_time_size(item)?;
+                if let Some(first_item) = first_item {
+                    if !same_type(first_item, item) {
+                        // Tuples have no defined memory order. The compiler does reorder items of the same size and
+                        // alignment if their types differ (for example '(u32, char, u32)' is stored with the char first).
+                        return None;
+                    }
+                } else {
+                    first_item = Some(item);
+                }
                 if let Some(itemsize_align) = itemsize_align {
                     if itemsize_align != (cursize, curalign) {
                         // All items not the same size and have same alignment. Otherwise: Might be padding issues.
@@ -581,12 +594,13 @@ pub(crate) fn compile_time_check_reprc(typ: &Type) -> bool {
                 } else {
                     return false;
                 };
-                if let Some(size) = size {
-                    if xsize != size {
+                if let Some((size, first)) = size {
+                    // Items of the same size but different types can be reordered by the compiler
+                    if xsize != size || !same_type(first, x) {
                         return false;
                     }
                 } else {
-                    size = Some(xsize);
+                    size = Some((xsize, x));
                 }
             }
             true
